@@ -23,7 +23,8 @@ def strategy(tier):
     cfg = gen.Cfg(max_tasks=12 if tier == "quick" else 30, batch_free=True, probes=True, sync=False, ctx=(), dag=False, early_result=False,
                   lazy_raise=False, bad=False, unset=False, convs=("value",), prio="default", catch_p=2,
                   shapes=("chain", "tree", "free", "free", "free", "comb"))
-    return st.fixed_dictionaries({"prog": gen.programs(cfg), "entry": st.sampled_from(["function", "method", "proxy"])})
+    return st.fixed_dictionaries({"prog": gen.programs(cfg), "entry": st.sampled_from(["function", "method", "proxy"]),
+                                  "plain_tail": st.sampled_from([None, "ok", "raise", "raise"])})
 
 
 def make_world():
@@ -119,7 +120,15 @@ def make_world():
     def proxy(t):
         return run_task.asynq(t)
 
-    W.update(run_task=run_task, obj=Obj(), proxy=proxy)
+    @A()
+    def plain(fail):
+        # a function without any yield: .asyncio() runs it directly
+        W["mode_seen"].add(is_asyncio_mode())
+        if fail:
+            raise HExc(("plain",))
+        return ["plain", 1]
+
+    W.update(run_task=run_task, obj=Obj(), proxy=proxy, plain=plain, quick=quick)
     return W
 
 
@@ -157,6 +166,18 @@ def check(case, ctx):
             return ["exc", canon(e.key)]
         finally:
             flags["after"] = is_asyncio_mode()
+            # the same coroutine goes on: a plain (non-generator) @asynq function awaited directly, returning or raising
+            tail = case.get("plain_tail")
+            if tail:
+                try:
+                    flags["tail"] = ["ok", await Wb["plain"].asyncio(tail == "raise")]
+                except HExc as e:
+                    flags["tail"] = ["exc", canon(e.key)]
+                flags["after_tail"] = is_asyncio_mode()
+                try:
+                    flags["sync_after_tail"] = ["ok", Wb["quick"]()]
+                except RuntimeError as e:
+                    flags["sync_after_tail"] = ["RuntimeError", str(e)[:60]]
 
     try:
         b = asyncio.run(driver())
@@ -180,6 +201,13 @@ def check(case, ctx):
         break
     if flags.get("before") is not False or flags.get("after") is not False:
         viol.append(("C15.mode_flag", "%s: is_asyncio_mode() was %r before and %r after awaiting fn.asyncio() (outcome %r)" % (desc, flags.get("before"), flags.get("after"), b)))
+    tail = case.get("plain_tail")
+    if tail:
+        exp_tail = ["exc", ["plain"]] if tail == "raise" else ["ok", ["plain", 1]]
+        if flags.get("tail") != exp_tail:
+            viol.append(("C15.same_result", "%s: awaiting plain.asyncio() gives %r, plain() gives %r" % (desc, flags.get("tail"), exp_tail)))
+        if flags.get("after_tail") is not False or flags.get("sync_after_tail") != ["ok", 1]:
+            viol.append(("C15.mode_flag", "%s: after awaiting a plain @asynq function's .asyncio() that %s, is_asyncio_mode() is %r and a synchronous call of an @asynq() function gives %r" % (desc, "raised" if tail == "raise" else "returned", flags.get("after_tail"), flags.get("sync_after_tail"))))
     if is_asyncio_mode():
         viol.append(("C15.mode_flag", "is_asyncio_mode() is on outside any event loop"))
     if Wb["mode_seen"] - {True}:
@@ -193,6 +221,7 @@ def check(case, ctx):
     ctx.label("caught", any(e[0] == "caught" for t in rb.trans.values() for e in t))
     ctx.label("probe", st_["ops"].get("probe", 0) > 0)
     ctx.label("explicit-asyncio_fn", st_["leaves"].get("afn", 0) > 0)
+    ctx.label("plain-function-tail=" + str(tail))
     ctx.nontrivial(case, st_["tasks"] >= 2 and (st_["nested"] or any(e[0] == "caught" for t in rb.trans.values() for e in t)))
     return viol
 
@@ -202,6 +231,8 @@ def reduce_case(case):
         yield dict(case, prog=p)
     if case["entry"] != "function":
         yield dict(case, entry="function")
+    if case.get("plain_tail"):
+        yield dict(case, plain_tail=None)
 
 
 SUBS = [Sub("batch-free-programs", check, strategy=strategy, reduce=reduce_case, examples={"quick": 3000, "thorough": 100000})]
